@@ -61,7 +61,9 @@ def option_matrix(tier: str, rng) -> typing.List[typing.Tuple[str, dict]]:
                 ('target_c', {'target_endianness': 'big'}),
                 ('target_cpp', {'target_endianness': 'any', 'std': 'c++14'}),
                 ('target_cpp', {'target_endianness': 'little', 'std': 'c++17', 'enable_serialization_asserts': True}),
-                ('target_cpp', {'target_endianness': rng.choice(['any', 'big']), 'std': rng.choice(['c++20', 'c++17-pmr'])}),
+                ('target_cpp', {'target_endianness': 'big', 'std': 'c++20'}),
+                ('target_cpp', {'target_endianness': rng.choice(['any', 'little', 'big']), 'std': 'c++17-pmr',
+                                'enable_serialization_asserts': rng.choice([False, True])}),
                 ('target_py', {})]
     out: typing.List[typing.Tuple[str, dict]] = []
     out += [('target_c', {'target_endianness': e, 'enable_serialization_asserts': a}) for e in ('any', 'little', 'big') for a in (False, True)]
@@ -76,7 +78,7 @@ def option_matrix(tier: str, rng) -> typing.List[typing.Tuple[str, dict]]:
     return out
 
 
-SIZES = {'quick': dict(n_types=22, per_type=26, n_values=8, rounds=1),
+SIZES = {'quick': dict(n_types=26, per_type=40, n_values=10, rounds=1),
          'thorough': dict(n_types=32, per_type=110, n_values=24, rounds=4)}
 
 
@@ -478,7 +480,7 @@ def case_fails(ctx: Ctx, f: Failure, cands) -> typing.List[bool]:
     return [(f['kind'], i) in flags for i in range(len(cands))]
 
 
-def shrink(ctx: Ctx, f: Failure, budget: int = 12, max_cands: int = 300) -> 'campaign.Case':
+def shrink(ctx: Ctx, f: Failure, budget: int = 40, max_cands: int = 300) -> 'campaign.Case':
     cur = f['case']
     db = ctx.db
     for _ in range(budget):
@@ -526,17 +528,33 @@ def options_of(prep: campaign.Prepared, lab: str) -> typing.Optional[typing.Tupl
     return None
 
 
-def shrink_type(ctx: Ctx, f: Failure, cur, exe: str, budget: int = 6) -> typing.Tuple[typing.Dict[str, str], 'campaign.Case']:
+def answers_for(prep: campaign.Prepared, labs: typing.List[str], c) -> typing.Dict[str, str]:
+    out = {}
+    for lab, t in prep.targets:
+        if lab in labs:
+            try:
+                out[lab] = t.run([c.req], timeout=60.0)[0]
+            except Exception as ex:  # noqa: BLE001
+                out[lab] = 'crash runner raised %r' % (ex,)
+    mr = prep.model.run([c.req] + (['p' + c.req] if c.op == 'ser' else []))
+    out['model'] = mr[0]
+    if c.op == 'ser':
+        out['model_py'] = mr[1]
+    return out
+
+
+def shrink_type(ctx: Ctx, f: Failure, cur, exe: str, budget: int = 10):
     """drop fields of the failing top-level structure (ser requests only) while the two targets still disagree; every candidate
     is a real regeneration + rebuild of the targets involved on the reduced namespace"""
     files = needed_files(ctx.prep, cur.tid)
     comp = ctx.db.comp(cur.tid)
+    labs = [x for x in (f['a'], f['b']) if x != 'model']
+    answers = answers_for(ctx.prep, labs, cur)
     if cur.op != 'ser' or comp['kind'] != 'struct' or len(comp['fields']) < 2:
-        return files, cur
+        return files, cur, answers
     src = next((k for k in files if comp['source'].endswith(k)), None)
     if src is None or '---' in files[src]:
-        return files, cur
-    labs = [x for x in (f['a'], f['b']) if x != 'model']
+        return files, cur, answers
     matrix = [options_of(ctx.prep, lab) for lab in labs]
     value = list(cur.value)
     lines = files[src].splitlines()
@@ -566,6 +584,7 @@ def shrink_type(ctx: Ctx, f: Failure, cur, exe: str, budget: int = 6) -> typing.
             ctx2 = Ctx(p2, ctx.tie_active)
             if case_fails(ctx2, f2, [c2])[0]:
                 files, lines, value, cur = cand_files, cand_lines, cand_value, c2
+                answers = answers_for(p2, [l for l, _ in p2.targets], c2)
             else:
                 j += 1
         except Exception:  # noqa: BLE001
@@ -575,7 +594,7 @@ def shrink_type(ctx: Ctx, f: Failure, cur, exe: str, budget: int = 6) -> typing.
                 if hasattr(t, 'close'):
                     t.close()
             shutil.rmtree(work, ignore_errors=True)
-    return files, cur
+    return files, cur, answers
 
 
 # ------------------------------------------------------------------------------------------------
@@ -624,7 +643,7 @@ def run_replay(chk: core.Check, path: str, exe: str) -> int:
                          'traces_validated_against_impl': cnt['evaluations'], 'distribution': {'replay': path}, 'obligations': 1, 'discharged': 1})
     if fl:
         rep = {k: doc[k] for k in ('files', 'pair', 'tie_active') if k in doc}
-        rep.update({'case': c.to_json(), 'got_a': fl[0]['got_a'], 'got_b': fl[0]['got_b'], 'failure_kind': fl[0]['kind'],
+        rep.update({'case': c.to_json(), 'answers_on_shrunk_case': {'a': fl[0]['got_a'], 'b': fl[0]['got_b']}, 'failure_kind': fl[0]['kind'],
                     'what': 'replayed failing input still fails: ' + fl[0]['what']})
         chk.violation(rep, found_input=True)
     for _, t in prep.targets:
@@ -736,7 +755,7 @@ def run(chk: core.Check, trusted: typing.List[str], replay: typing.Optional[str]
             order = {'pair': 0, 'chain': 1, 'model': 2}
             f = sorted(fails, key=lambda x: order[x['kind']])[0]
             small = shrink(ctx, f)
-            files, small = shrink_type(ctx, f, small, exe)
+            files, small, answers = shrink_type(ctx, f, small, exe)
             pair = []
             for lab in (f['a'], f['b']):
                 o = options_of(prep, lab)
@@ -744,7 +763,8 @@ def run(chk: core.Check, trusted: typing.List[str], replay: typing.Optional[str]
             if f['a'] == f['b']:
                 pair = pair[:1]
             rep = {'failure_kind': f['kind'], 'what': f['what'], 'step': f.get('step', ''), 'pair': pair, 'case': small.to_json(),
-                   'original_case': f['case'].to_json(), 'got_a': f['got_a'], 'got_b': f['got_b'], 'n_failing': f.get('n_failing', 1),
+                   'answers_on_shrunk_case': answers, 'original_case': f['case'].to_json(), 'original_got_a': f['got_a'],
+                   'original_got_b': f['got_b'], 'n_failing': f.get('n_failing', 1),
                    'files': files, 'tie_active': tie_active, 'broken': broken,
                    'all_failures': [{'kind': x['kind'], 'a': x['a'], 'b': x['b'], 'n': x.get('n_failing', 1), 'step': x.get('step', ''),
                                      'request': x['case'].req[:200]} for x in fails[:20]]}
